@@ -66,6 +66,11 @@ def run_bell(ctx, states, rng, nmodel):
                               E.DensityMatrixGMEModel((2, 2), ens, rank=rank), E.DensityMatrixLinearEntropyModel((2, 2), ens, rank=rank)]
                     for m in models:
                         m.set_density_matrix(rho)
+                        # "an actual pure-state decomposition of the GIVEN state": the ensemble is sqrt(rho) X^T with X on a Stiefel manifold
+                        # (membership of X: C01), so the stored factor must reproduce rho:  S S^dagger = rho
+                        S = m._sqrt_rho.detach().numpy().reshape(4, -1)
+                        if core.gt(np.abs(S @ S.conj().T - rho).max(), 1e-9):
+                            bad(type(m).__name__, 'the ensemble the model evaluates does not decompose the given state (S S^dagger differs from rho by %.3g, ensemble %d, rank %d)' % (np.abs(S @ S.conj().T - rho).max(), ens, rank), dict(ensemble=ens, rank=rank))
                         npar = len(numqi.optimize.get_model_flat_parameter(m))
                         for scale in (0.1, 1.0, 10.0):
                             th = np.array([rng.gauss(0, scale) for _ in range(npar)])
